@@ -135,7 +135,15 @@ def equal_but_distinct_default(case, msg, observed=None):
     return bool(case.get("equal")) and case.get("default") != case.get("upstream") and "was not re-run when y changed" in (msg or "")
 
 
-MATCHERS = {f.__name__: f for f in (equal_but_distinct_default, stop_iteration_async, waiter_with_edge_default, ambiguous_cycle_entry, empty_map_silent, viz_renamed_boundary, interrupt_handler_wrapped, interrupt_with_edge_default, bound_output_name)}
+def nested_interrupt_resume(case, msg, observed=None):
+    """An interrupt INSIDE a nested graph pauses with response_key '<graph node>.<output>', but no run-time input reaches the
+    nested run under that (or any other) key: the re-run pauses at the same interrupt again."""
+    if not isinstance(case, dict) or case.get("family") != "nested_resume":
+        return False
+    return "/" in (case.get("node") or "") and "." in (case.get("key") or "") and "pauses at the same interrupt again" in (msg or "")
+
+
+MATCHERS = {f.__name__: f for f in (nested_interrupt_resume, equal_but_distinct_default, stop_iteration_async, waiter_with_edge_default, ambiguous_cycle_entry, empty_map_silent, viz_renamed_boundary, interrupt_handler_wrapped, interrupt_with_edge_default, bound_output_name)}
 
 
 def classify(ctx, case, msg, observed=None):
